@@ -77,7 +77,7 @@ Lemma empty_refuted : old_wrong w_empty.
 Proof. split; [exact w_empty_wf|]. vm_compute. discriminate. Qed.
 Lemma stride_refuted : old_wrong w_macaddr /\ old_wrong w_name /\ old_wrong w_tsrange.
 Proof.
-  repeat split; try exact w_macaddr_wf; try exact w_name_wf; try exact w_tsrange_wf;
+  split; [|split]; (split; [first [exact w_macaddr_wf | exact w_name_wf | exact w_tsrange_wf]|]);
     vm_compute; discriminate.
 Qed.
 
@@ -98,7 +98,7 @@ Lemma old_panics :
   DecodeType_array_old dt_id (exact p_bitmap) 1007 = Panic /\
   DecodeType_array_old dt_id (exact p_ndim6) 1007 = Panic /\
   DecodeType_array_old dt_id (exact p_long2) 1009 = Panic.
-Proof. repeat split; vm_compute; reflexivity. Qed.
+Proof. split; [|split; [|split]]; vm_compute; reflexivity. Qed.
 
 (* the repaired code on the same inputs *)
 Lemma new_on_witnesses :
@@ -108,4 +108,4 @@ Lemma new_on_witnesses :
   DecodeType_array dt_id (exact p_bitmap) 1007 = Ok (Some VListNil) /\
   DecodeType_array dt_id (exact p_ndim6) 1007 = Ok (Some VListNil) /\
   DecodeType_array dt_id (exact p_long2) 1009 = Ok (Some (VList [])).
-Proof. repeat split; vm_compute; reflexivity. Qed.
+Proof. split; [|split; [|split; [|split; [|split]]]]; vm_compute; reflexivity. Qed.
